@@ -51,6 +51,11 @@ type ViolationRec struct {
 	Prefix  []uint64          `json:"prefix_episode_seeds,omitempty"`
 	Shrunk  bool              `json:"shrunk,omitempty"`
 	OrigLen int               `json:"orig_tape_len,omitempty"`
+	// history replay (see the worker): re-run episodes HistFrom..Index-1 of the worker first
+	WSeed    uint64  `json:"worker_seed,omitempty"`
+	WFrom    uint64  `json:"worker_from,omitempty"`
+	GCEvery  uint64  `json:"gc_every,omitempty"`
+	HistFrom *uint64 `json:"history_from,omitempty"`
 }
 
 type Result struct {
@@ -467,6 +472,8 @@ func check(prop, tier string) int {
 					if err2 := readJSON(cur, &c); err2 == nil {
 						c.Oracle = prop + ".crash"
 						c.Msg = crashLine(se)
+						c.WSeed, c.WFrom, c.GCEvery = wseed, from, uint64(gcEvery(prop))
+						c.Params = map[string]string{"tier": tier}
 						mu.Lock()
 						crashes = append(crashes, c)
 						mu.Unlock()
@@ -551,7 +558,7 @@ func check(prop, tier string) int {
 		v.Tags = tags
 		conf, msg := confirm(dir, v, fmt.Sprintf("v%d", i))
 		if conf == nil {
-			fmt.Println("INFRA: violation did not replay deterministically:", v.Oracle, v.Msg, "--", msg)
+			fmt.Printf("INFRA: violation did not replay deterministically (worker seed %d from %d episode %d): %s %s -- %s\n", v.WSeed, v.WFrom, v.Index, v.Oracle, v.Msg, msg)
 			exit = 2
 			continue
 		}
@@ -793,7 +800,39 @@ func confirm(dir string, v *ViolationRec, tag string) (*ViolationRec, string) {
 	}
 	// shrunk tape does not reproduce in a fresh process: fall back to the original
 	orig := *v
-	return try(&orig)
+	r, msg := try(&orig)
+	if r != nil || v.WSeed == 0 {
+		return r, msg
+	}
+	// the episode alone (or with its GC window) does not fail: it depends on what earlier
+	// episodes of its worker process left in object pools. Re-run a growing suffix of that
+	// worker's history (always starting at a forced GC) in front of it.
+	ge := v.GCEvery
+	if ge == 0 {
+		ge = 1
+	}
+	aligned := v.WFrom + (v.Index-v.WFrom)/ge*ge
+	for k := uint64(1); ; k *= 2 {
+		start := v.WFrom
+		if aligned-v.WFrom > k*ge {
+			start = aligned - k*ge
+		}
+		h := *v
+		h.Prefix = nil
+		h.HistFrom = &start
+		if x, _ := replayOnce(dir, &h, tag+"h"); x != nil && x.Oracle == v.Oracle {
+			if r, m := try(&h); r != nil {
+				r.HistFrom, r.WSeed, r.WFrom, r.GCEvery = h.HistFrom, h.WSeed, h.WFrom, h.GCEvery
+				return r, ""
+			} else {
+				msg = m
+			}
+		}
+		if start == v.WFrom {
+			break
+		}
+	}
+	return nil, msg
 }
 
 // matchKnown: same property and oracle, and neutralising the recorded trigger
